@@ -123,6 +123,9 @@ def build(spec: Dict[str, Any]) -> Any:
                 el[name] = dmx.Attribute.time(name, conv(typ, val))
             else:
                 el[name] = conv(typ, val)  # type deduced by Element.__setitem__
+    for e, el in zip(spec['elems'], elems):
+        if e.get('nameless'):
+            del el['name']  # the state Element.clear() leaves behind; el.name reads ''
     return elems[0]
 
 
@@ -655,6 +658,8 @@ def check_graph(run, rng, spec: Dict[str, Any], engine: str, case: Dict[str, Any
     for name in ('sharing', 'cycle', 'self_loop', 'shared_stub'):
         if feat[name]:
             run.count('graphs_with_' + name)
+    if any(e.get('nameless') for e in spec['elems']):
+        run.count('graphs_with_nameless_elements')
     for name in ('stub', 'null', 'null_in_array', 'empty_array', 'scalar_matrix', 'name_needs_escape', 'unicode_string_array',
                  'unicode_type'):
         if feat[name]:
@@ -918,7 +923,7 @@ def main(run, shard=(0, 1)) -> None:
     probe.report(run)
     probe.check_reached(run)
     run.require('binary_parses', 'kv2_parses', 'independent_decodes_agree', 'to_kv1_calls', 'to_kv1_after_wire',
-                'graphs_with_sharing', 'graphs_with_cycle', 'graphs_with_self_loop', 'stub_occurrences', 'null_in_array_occurrences',
+                'graphs_with_sharing', 'graphs_with_cycle', 'graphs_with_self_loop', 'graphs_with_nameless_elements', 'stub_occurrences', 'null_in_array_occurrences',
                 'empty_array_occurrences', 'scalar_matrix_occurrences', 'name_needs_escape_occurrences',
                 'unicode_string_array_occurrences', 'unicode_type_occurrences', 'ascii_mode_refused_non_ascii',
                 'time_refused_before_v3', *('scalar_' + t for t in TYPES), *('array_' + t for t in TYPES))
